@@ -16,7 +16,10 @@ Inductive sty :=
 | SNum | SBool | SStr
 | SFun (a b : sty)
 | SArr (a : sty)
-| SRec (fs : list (string * sty)).
+| SRec (fs : list (string * sty))
+(* a record with the listed fields and a quantified tail: row variable i, whose excluded-field set
+   (computed by the parser from the whole type) is ex *)
+| SRow (fs : list (string * sty)) (i : nat) (ex : list string).
 
 Definition is_svar (T : sty) : bool := match T with SVar _ => true | _ => false end.
 Definition is_base (T : sty) : bool := match T with SNum | SBool | SStr => true | _ => false end.
@@ -38,7 +41,8 @@ Fixpoint has_ty (G : tenv) (e : tm) (T : sty) {struct e} : Prop :=
       | Not => T = SBool /\ has_ty G a SBool
       | Length => T = SNum /\ exists U, has_ty G a (SArr U)
       | ToStr => T = SStr /\ exists U, is_base U = true /\ has_ty G a U
-      | GetF x => exists fs, has_ty G a (SRec fs) /\ lookup x fs = Some T
+      | GetF x => (exists fs, has_ty G a (SRec fs) /\ lookup x fs = Some T)
+                  \/ (exists fs i ex, has_ty G a (SRow fs i ex) /\ lookup x fs = Some T)
       | IsNum | IsBool | IsStr | IsFun | IsArr | IsRec =>
           (* inspecting a value whose type is not a quantified variable is fine *)
           T = SBool /\ exists U, is_svar U = false /\ has_ty G a U
@@ -90,6 +94,11 @@ Fixpoint inst (s : nat -> sty) (T : sty) : sty :=
   | SArr a => SArr (inst s a)
   | SRec fs => SRec ((fix go (fs : list (string * sty)) : list (string * sty) :=
                         match fs with [] => [] | (x, T) :: fs' => (x, inst s T) :: go fs' end) fs)
+  (* a row variable is instantiated by the (closed) record type of the extra fields *)
+  | SRow fs i _ =>
+      SRec (((fix go (fs : list (string * sty)) : list (string * sty) :=
+                match fs with [] => [] | (x, T) :: fs' => (x, inst s T) :: go fs' end) fs)
+              ++ match s i with SRec tl => tl | _ => [] end)%list
   end.
 
 Fixpoint closed_sty (T : sty) : Prop :=
@@ -100,6 +109,7 @@ Fixpoint closed_sty (T : sty) : Prop :=
   | SArr a => closed_sty a
   | SRec fs => (fix go (fs : list (string * sty)) : Prop :=
                   match fs with [] => True | (_, T) :: fs' => closed_sty T /\ go fs' end) fs
+  | SRow _ _ _ => False
   end.
 
 (* the contract generated for the body of `forall a0 ... . T`, variable i sealed with key [keys i] *)
@@ -112,6 +122,10 @@ Fixpoint sty_ctr (keys : nat -> nat) (T : sty) : ctr :=
   | SRec fs => CRec ((fix go (fs : list (string * sty)) : list (string * ctr) :=
                         match fs with [] => [] | (x, T) :: fs' => (x, sty_ctr keys T) :: go fs' end) fs)
                     CTEmpty
+  | SRow fs i ex =>
+      CRec ((fix go (fs : list (string * sty)) : list (string * ctr) :=
+               match fs with [] => [] | (x, T) :: fs' => (x, sty_ctr keys T) :: go fs' end) fs)
+           (CTVar (keys i) ex)
   end.
 
 Fixpoint foralls (ks : list nat) (c : ctr) : ctr :=
@@ -127,4 +141,8 @@ Fixpoint sty_ty (names : nat -> string) (T : sty) : ty :=
   | SRec fs => TRec ((fix go (fs : list (string * sty)) : list (string * ty) :=
                         match fs with [] => [] | (x, T) :: fs' => (x, sty_ty names T) :: go fs' end) fs)
                     TlEmpty
+  | SRow fs i _ =>
+      TRec ((fix go (fs : list (string * sty)) : list (string * ty) :=
+               match fs with [] => [] | (x, T) :: fs' => (x, sty_ty names T) :: go fs' end) fs)
+           (TlVar (names i))
   end.
